@@ -271,5 +271,20 @@ PROPS["C11"] = {
     "legs": [rapid("req", "eng", "TestRequests", 600, 8000, shards=(2, 12))],
 }
 
+PROPS["C08"] = {
+    "id": "C08", "level": "exploration",
+    "rule": "generated trees of 1..10 actors (depth <= 3, fan-out <= 3, children spawned by their parent's Started handler), nodes that are blocked in Receive with 0..5 queued messages "
+            "when the shutdown starts, leaves that die inside their own Started handler (MaxRestarts 0), 0..2 subtrees stopped/poisoned by a third party beforehand (awaited), then one node is stopped, poisoned or crashed to death (MaxRestarts 0).  "
+            "Every actor stamps Stopped with a global sequence number and looks its descendants up in the registry from inside its Stopped handler: every descendant must have a smaller "
+            "stamp and be unregistered, Stopped is handled exactly once per node, the stop context completes after all of it, nodes outside the subtree are untouched, Children() of every "
+            "live node equals the model's live children at every quiescent point, Parent() names the spawner.  Non-trivial = the stopped subtree has depth >= 2 and a blocked descendant, "
+            "a subtree that stopped on its own first, a child that died in its own Started, or a death by max-restarts.",
+    "technique": "property-based testing (rapid) of generated supervision trees on the real engine; global stop stamps + in-handler registry probes",
+    "level_text": "Generated-configuration search with an ordering invariant over the Stopped stamps of the whole tree.",
+    "level_note": "third-party stops are awaited before the parent shuts down: the concurrent case is open finding F7 (known_findings.json) and is kept out by construction",
+    "assumptions": ENG_ASSUME + ["a third party never stops a child concurrently with its parent's shutdown (open finding F7, printed as KNOWN-FINDING)"],
+    "legs": [plain("known", "tree", "TestKnownF7"), rapid("tree", "tree", "TestTree", 2000, 40000, shards=(2, 12))],
+}
+
 # reasons for properties that are not claimed (kept current by hand)
 NA_REASONS = {}
